@@ -360,6 +360,8 @@ class LabeledDirectedGraph {
         Edges(const LabeledDirectedGraph<EdgeLabel> &graph) : graph(graph) {}
 
         constEdgeIterator begin() const {
+            if (graph.getSize() == 0)
+                return end();
             VertexIndex endVertex = getEndVertex(graph);
 
             VertexIndex vertexWithFirstEdge = 0;
@@ -376,6 +378,10 @@ class LabeledDirectedGraph {
         }
         constEdgeIterator end() const {
             VertexIndex endVertex = getEndVertex(graph);
+            if (graph.getSize() == 0)
+                return constEdgeIterator(
+                    graph, endVertex, Successors::const_iterator()
+                );
             return constEdgeIterator(
                 graph, endVertex, graph.getOutNeighbours(endVertex).end()
             );
